@@ -185,7 +185,8 @@ func loadV2(path string) doc {
 			d.Notes = append(d.Notes, "path does not start with /: "+path)
 		}
 		for method, o := range item.Operations() {
-			x := op{Method: method, Path: path, ID: o.OperationID}
+			// OpenAPI 2.0: the operation's URL is basePath + path
+			x := op{Method: method, Path: strings.TrimSuffix(t.BasePath, "/") + path, ID: o.OperationID}
 			if prev, dup := ids[o.OperationID]; dup && o.OperationID != "" {
 				d.ValidateError += fmt.Sprintf(" duplicate operationId %q (%s and %s %s)", o.OperationID, prev, method, path)
 			}
